@@ -238,7 +238,7 @@ def Net.applyEvent (g : Net) (now j src p : Nat) (st : Supv.Proc.PState) (ex : B
     match Supv.Proc.updateInfo x src st ex et none now with
     | .ok y => (g.setProc j p y).setFate src j p .delivered
     | .err _ =>
-      -- `update_status` raised (an instance listed as running has no entry any more: known finding C11:remove-entry-not-stopped):
+      -- `update_status` raised (an instance listed as running has no entry any more: the defect C11:remove-entry-not-stopped, repaired by 958c9f3 - kept so that the lock-step follows the code if it returns):
       -- the entry, the forced state and the listing are already written, the synthetic state is not; the guard of the listener
       -- logs the traceback
       let p1 : Supv.Proc.Proc := { x with infos := x.infos.set src { state := st, expected := ex, ltime := now, etime := et, nowm := et,
@@ -255,7 +255,8 @@ def Net.applyRemove (g : Net) (j src p : Nat) : Net :=
   let v := g.view j src
   let x := g.proc j p
   if (v == .checked || v == .running) && (x.infos.get? src).isSome then
-    let x' := { x with infos := x.infos.del src }
+    let x0 : Supv.Proc.Proc := { x with infos := x.infos.del src, running := x.running.erase src }
+    let x' := resOr (Supv.Proc.removeIdentifier x src) x0
     g.setProc j p (if x'.infos.isEmpty then {} else x')
   else g
 
